@@ -22,10 +22,11 @@ from common import Evidence, Verdicts, run_tlc, stage_spec, MachineryError
 PROP = "C14"
 
 
-def write_cfg(d, callers, snapshot, record, name):
+def write_cfg(d, callers, snapshot, record, name, closers=(), peercloses=False):
     cfg = os.path.join(d, name)
     lines = ["INIT Init", "NEXT Next", "CONSTANTS", "  Callers = {%s}" % ", ".join(str(c) for c in callers),
              f"  SnapshotCleanup = {'TRUE' if snapshot else 'FALSE'}", f"  RecordHist = {'TRUE' if record else 'FALSE'}",
+             "  Closers = {%s}" % ", ".join(str(c) for c in closers), f"  PeerCloses = {'TRUE' if peercloses else 'FALSE'}",
              "INVARIANT Good", "INVARIANT NoHang", "CHECK_DEADLOCK FALSE"]
     if record:
         lines.append("INVARIANT Emit")
@@ -76,6 +77,21 @@ def run(tier, seed):
                  seed=seed + 9, timeout=3000)
     ev.add_tlc(f"Ipc.tla (pinned cleanup loop) -simulate num={nsim // 3}, 3 callers: registration in the middle of the cleanup", r4)
     behs += [(3, p) for p in r4.prints if isinstance(p, dict) and "steps" in p]
+    # close(): one caller closes the handle while the others call; the peer may ask to close as well
+    rc = run_tlc(mod, write_cfg(d, [1, 2, 3], True, False, "c3.cfg", closers=[3], peercloses=True), workers=16, timeout=3000)
+    ev.add_tlc("Ipc.tla exhaustive, 3 callers of which one runs close(), the peer may request a close", rc, "invariants Good and NoHang")
+    if rc.violated:
+        vd.violation({"what": f"design-level: Ipc.tla (close) violates {rc.violated}", "counterexample": rc.cex[:8000]})
+    r5 = run_tlc(mod, write_cfg(d, [1, 2], True, True, "ce2.cfg", closers=[2], peercloses=True), workers=1, simulate=f"num={nsim}", depth=60,
+                 seed=seed + 10, timeout=3000)
+    ev.add_tlc(f"Ipc.tla -simulate num={nsim}, caller 1 calls, caller 2 closes, peer may request a close", r5)
+    ctree = [(2, p) for p in r5.prints if isinstance(p, dict) and "steps" in p]
+    random.Random(seed + 1).shuffle(ctree)
+    closing = ctree[:(800 if not thorough else 10000)]
+    r6 = run_tlc(mod, write_cfg(d, [1, 2, 3], True, True, "ce3.cfg", closers=[3], peercloses=True), workers=1, simulate=f"num={nsim // 3}", depth=60,
+                 seed=seed + 11, timeout=3000)
+    ev.add_tlc(f"Ipc.tla -simulate num={nsim // 3}, callers 1-2 call, caller 3 closes", r6)
+    closing += [(3, p) for p in r6.prints if isinstance(p, dict) and "steps" in p][:(500 if not thorough else 5000)]
     seen, uniq = set(), []
     for n, b in behs:
         h = common.jhash(b["steps"])
@@ -84,22 +100,22 @@ def run(tier, seed):
             uniq.append((n, b))
     behs = uniq
     cap = 4000 if not thorough else 40000
-    behs = behs[:cap]
+    behs = [(n, b, ()) for n, b in behs[:cap]] + [(n, b, (n,)) for n, b in closing]
     if not behs:
         raise MachineryError("no behaviours emitted")
 
     from ipcdriver import IpcDriver
     traces, meta = [], {}
     drift = 0
-    for n, b in behs:
-        drv = IpcDriver(list(range(1, n + 1)))
+    for n, b, closers in behs:
+        drv = IpcDriver(list(range(1, n + 1)), closers=closers)
         try:
             res = drv.run(b["steps"])
         except Exception as e:
             raise MachineryError(f"driver failed on {b['steps']}: {type(e).__name__}: {e}")
         tid = len(traces)
         traces.append({"tid": tid, "callers": list(range(1, n + 1)), "events": res["events"]})
-        meta[tid] = (b, res)
+        meta[tid] = (b, res, closers)
         if res["drift"] or sorted(res["events"][-1]["blocked"]) != sorted(b["hung"]):
             drift += 1
     tf = os.path.join(d, "calls.json")
@@ -116,13 +132,13 @@ def run(tier, seed):
     for tid, v in verdicts.items():
         if v["bad"] == "ok":
             continue
-        b, res = meta[tid]
-        vd.violation({"what": f"real NetworkClient: {v['bad']}: schedule {[(s['a'], s.get('c', s.get('id', ''))) for s in b['steps']]} "
+        b, res, closers = meta[tid]
+        vd.violation({"what": f"real NetworkClient{' (caller %d runs close())' % closers[0] if closers else ''}: {v['bad']}: schedule {[(s['a'], s.get('c', s.get('id', ''))) for s in b['steps']]} "
                               f"-> events {res['events']}",
-                      "clause": v["bad"], "steps": b["steps"], "callers": traces[tid]["callers"], "events": res["events"]})
+                      "clause": v["bad"], "steps": b["steps"], "callers": traces[tid]["callers"], "closers": list(closers), "events": res["events"]})
     ev.cov["traces_validated_against_impl"] = len(traces)
     ev.cov["evaluations"] = len(traces)
-    ev.cov["distinct_nontrivial"] = sum(1 for n, b in behs if any(s["a"] == "pcut" for s in b["steps"]) or
+    ev.cov["distinct_nontrivial"] = sum(1 for n, b, _ in behs if any(s["a"] == "pcut" for s in b["steps"]) or
                                         len([s for s in b["steps"] if s["a"] == "ldeliver"]) >= 2)
     ev.cov["spec_drift"] = drift
     ev.cov["rule"] = ("complete behaviours of Ipc.tla (exhaustive tree for 2 callers, -simulate for 3, plus interleavings of caller "
@@ -138,7 +154,8 @@ def run(tier, seed):
                        "over pending_responses",
                        "'never hangs' is decided at quiescence of the virtual system (nothing ready, nothing scheduled, peer done); "
                        "a caller still inside call() then is a hang",
-                       "close()/server shutdown handshakes are not yet in the model (see DESIGN.md)"]
+                       "close(): the call of KGRemoteCloseConnection and the listener's exit are modelled; conn_provider.close() and the "
+                       "server side of the shutdown handshake are not"]
     return vd.finish()
 
 
@@ -146,6 +163,6 @@ def replay(path):
     from ipcdriver import IpcDriver
     with open(path) as f:
         case = json.load(f)["case"]
-    drv = IpcDriver(case["callers"])
+    drv = IpcDriver(case["callers"], closers=case.get("closers", ()))
     print(json.dumps(drv.run(case["steps"]), indent=1))
     os._exit(0)
